@@ -38,7 +38,9 @@ func diffRun(label, src string, inputs []diffInput, opt Options) {
 	base := L.GetTop()
 	fn, lerr := L.LoadString(src)
 	VAssert(lerr == nil, "diff: template loads: "+label)
-	VAssert(wfProto(fn.Proto) == "", "diff: compiled prototype is well-formed (C07): "+label)
+	if w := wfProto(fn.Proto); w != "" {
+		VAssert(false, "diff: compiled prototype is well-formed (C07): "+label+" ["+w+"]")
+	}
 	L.Push(fn)
 	ierr := L.PCall(0, MultRet, nil)
 	var iresults []LValue
@@ -56,6 +58,31 @@ func diffRun(label, src string, inputs []diffInput, opt Options) {
 	}
 	rresults, rerrv, rfailed := R.run(chunk, nil)
 	// compare
+	if VIsNative() {
+		// development aid (VERIF_NOTES=1): both traces in text form
+		it, rt := "", ""
+		for _, v := range trace {
+			if _, ok := v.(implSep); ok {
+				it += " |"
+			} else {
+				it += " " + v.(LValue).String()
+			}
+		}
+		for _, v := range R.trace {
+			if _, ok := v.(rsep); ok {
+				rt += " |"
+			} else if lv, ok := v.(LValue); ok {
+				rt += " " + lv.String()
+			} else {
+				rt += " <obj>"
+			}
+		}
+		VNote("impl:" + it)
+		VNote("ref: " + rt)
+		if ierr != nil {
+			VNote("impl error: " + ierr.Error())
+		}
+	}
 	VAssert((ierr != nil) == rfailed, "diff: fails iff the reference semantics fail: "+label)
 	VAssert(sameTraceList(trace, R.trace), "diff: same values handed to host functions, in order: "+label)
 	if ierr == nil && !rfailed {
@@ -129,6 +156,8 @@ type diffTmpl struct {
 }
 
 var c01Templates = []diffTmpl{
+	// surplus right-hand expressions are evaluated before any store
+	{"local function pr(v) emit('pr', v); return v end; local a, b = x, y; a, b = z, a + 1, pr(b); emit(a, b); local p = x; p = y, pr(p); emit(p); local t = {}; t.k, p = 1, z, pr(p), pr(t.k); emit(t.k, p)", "num"},
 	// multiple assignment: all right-hand sides and left-hand prefixes/keys before any store
 	{"local a, b = x, y; a, b = b, a; emit(a, b)", "num"},
 	{"local a, b, c = x, y, z; a, b, c = c, a, b; emit(a, b, c)", "num"},
@@ -272,7 +301,7 @@ func c01Inputs(kind string) []diffInput {
 
 // C01.tmpl — whole-pipeline differential against R-lua.
 //
-//verif:harness prop=C01 tier=quick bounds="84 program templates organised by compiler special case (multiple assignment shapes, destination kinds, relational/logical contexts, loops, goto, tables, closures, varargs, errors, coercions); inputs: 3 symbolic float64 / 3 symbolic 32-bit integers / 2 values of any scalar type"
+//verif:harness prop=C01 tier=quick bounds="85 program templates organised by compiler special case (multiple assignment shapes, destination kinds, relational/logical contexts, loops, goto, tables, closures, varargs, errors, coercions); inputs: 3 symbolic float64 / 3 symbolic 32-bit integers / 2 values of any scalar type"
 func H_C01_tmpl() {
 	t := c01Templates[VChoice(len(c01Templates))]
 	diffRun(t.src, t.src, c01Inputs(t.kind), Options{})
